@@ -557,8 +557,16 @@ func genC08(c *Ctx) {
 			ctx = append(ctx, y, y+"+")
 		}
 		ctx = append(ctx, x, x+"+", x+"-only", "MIT", "GPL-2.0-only", "LicenseRef-x", ids[(idx*7+3)%len(ids)])
-		if !c.thorough() && len(ctx) > 12 {
-			ctx = append(ctx[:8], ctx[len(ctx)-4:]...)
+		if strings.HasPrefix(x, "GPL-") || strings.HasPrefix(x, "LGPL-") {
+			// deprecated ids that carry an exception in their name
+			for _, d := range tDeprec {
+				if strings.Contains(d, "-with-") || d == "eCos-2.0" || d == "wxWindows" {
+					ctx = append(ctx, d)
+				}
+			}
+		}
+		if !c.thorough() && len(ctx) > 24 {
+			ctx = append(ctx[:8], ctx[len(ctx)-16:]...)
 		}
 		// X+ and X-only+ (the '+' applied to either spelling of the pair), both spellings side by side in one expression
 		if v[0] == "1" && v[1] == "1" && c.V(x+"+") == "1" && c.V(x+"-only+") == "1" {
@@ -703,6 +711,28 @@ func genC09(c *Ctx) {
 		}
 		if r := c.S("MIT", []string{y}); r != unknown && r != "E" {
 			c.fail("Satisfies", map[string]interface{}{"expression": "MIT", "allowed": []string{y}}, r, "error", "only the ASCII letter case of a listed id may vary")
+		}
+	}
+	// bases that are on no list themselves but are listed with a suffix (GFDL-1.1-invariants): re-cased before the
+	// '+' that stands for the listed -or-later id, and before the documented suffixes
+	for _, x := range append(append([]string{}, tActive...), tDeprec...) {
+		for _, sfx := range []string{"-or-later", "-only"} {
+			b := strings.TrimSuffix(x, sfx)
+			if b == x || tListed[b] {
+				continue
+			}
+			for _, v := range variants(b) {
+				for _, tail := range []string{"+", sfx, sfx + " WITH Classpath-exception-2.0"} {
+					same("validity with the list-cased base", "ValidateLicenses", []string{v + tail}, c.V(b+tail), c.V(v+tail))
+					r1, s1 := c.X(b + tail)
+					r2, s2 := c.X(v + tail)
+					same("ExtractLicenses with the list-cased base (canonical casing)", "ExtractLicenses", v+tail, r1+fmt.Sprint(s1), r2+fmt.Sprint(s2))
+					for _, A := range [][]string{{x}, {b + "+"}, {"MIT"}} {
+						same("Satisfies with the list-cased base in the expression", "Satisfies", map[string]interface{}{"expression": v + tail, "allowed": A}, c.S(b+tail, A), c.S(v+tail, A))
+						same("Satisfies with the list-cased base in the allowed list", "Satisfies", map[string]interface{}{"expression": A[0], "allowed": []string{v + tail}}, c.S(A[0], []string{b + tail}), c.S(A[0], []string{v + tail}))
+					}
+				}
+			}
 		}
 	}
 	lic := append(append([]string{}, tActive...), tDeprec...)
